@@ -52,6 +52,28 @@ CHECKS = {
              "units (Fraction magnitudes) are recomputed by Trace_Reg and log units checked against their formula in float.",
         design_ref="DESIGN.md section 3, C06",
         note="Logarithms are floating point: tolerance 1e-9; // and % with offset units are outside the documented table and not claimed."),
+    "C12": dict(
+        technique="TLA+ state machine (PintRegistry) model-checked with TLC (action properties AtomicFailure, NoResidue, StackDiscipline); every TLC behaviour of length 3 replayed step by step on real registries; random histories of real calls validated by the total TLC trace spec Trace_Pint",
+        text="PintRegistry.tla has one action per public mutating call (enable / disable / with-enter / with-exit normal and by exception / define / "
+             "default_system) and per query; TLC explores every sequence up to length 4 (quick) or 5 (thorough) over a pool of contexts (rule with "
+             "parameter, redefinition, both, ill-formed) and checks that a failed activation changes nothing, that leaving a block restores every answer, "
+             "and the stack discipline; every behaviour of length 3 is executed on a fresh real registry with real with-blocks and exceptions, the stack "
+             "and a 12-probe answer vector compared after every step; random 25-call histories are logged and followed by Trace_Pint; context objects "
+             "(also shared between registries, re-entered with other parameters) must stay unmodified.",
+        design_ref="DESIGN.md section 3, C12",
+        note="The ordered stack is read from ureg._active_ctx when that attribute exists, otherwise only observed through the probes; listings while a "
+             "rule-bearing context is active are unconstrained."),
+    "C13": dict(
+        technique="TLA+ state machine (PintRegistry) with the law Transparent model-checked by TLC; behaviours executed sparsely (only logged queries ask) and compared with the spec; sparse random histories with fresh-registry twins validated by Trace_Pint; bundled-registry histories validated by Trace_Hist (first answer per declarative state and question)",
+        text="In PintRegistry.tla every answer is defined on the declarative state <<active stack, definitions, default system>> only; TLC checks that queries "
+             "move nothing.  All behaviours of length 3 are executed with only their own query steps asking, so the set and order of earlier queries "
+             "varies, and the final 12-probe vector is compared with the specification; random sparse histories and registries built afresh and brought "
+             "into the same declarative state are validated by Trace_Pint; 40-call histories over the bundled registry (7 contexts, 8 default systems, new "
+             "definitions, 38 questions incl. lazily registered prefixed units, formatting, to_compact) and their fresh twins are validated by Trace_Hist; "
+             "registries of different numeric type and the application registry are checked for isolation.",
+        design_ref="DESIGN.md section 3, C13",
+        note="Bundled-registry answers are compared as digests rounded to 10 significant digits (different cache paths may multiply floats in a different "
+             "order)."),
     "C04": dict(
         technique="TLA+ spec (UnitAlgebra, LinAlg) model-checked with TLC; TLC-generated cases replayed into pint; recorded operations validated by a TLC trace spec",
         text="TLC checks exhaustively (3 names, exponents -2..2 and +-1/2, all pairs, all powers, triples) that the operational model of "
